@@ -186,6 +186,13 @@ MUST_COMPILE = {
     "hoisted-then-reassigned": "c = 1\nif c > 0:\n    level = 3\nlevel = 5\nfor i in range(2):\n    total = i\ntotal = 9\nmon.write(level + total)\n",
     "two-lcd-kinds": "from Reduino.Displays import LCD\nl1 = LCD(rs=12, en=11, d4=5, d5=4, d6=3, d7=2)\nl2 = LCD(i2c_addr=0x27)\nl1.line(0, \"a\")\nl2.line(0, \"b\")\n",
     "lcd-with-rw-pin": "from Reduino.Displays import LCD\nl1 = LCD(rs=12, en=11, d4=5, d5=4, d6=3, d7=2, rw=10)\nl1.line(0, \"a\")\n",
+    "two-glyphs-one-block": "from Reduino.Displays import LCD\nl1 = LCD(i2c_addr=0x27)\nl1.glyph(0, [1, 2, 3, 4, 5, 6, 7, 8])\nl1.glyph(1, [8, 7, 6, 5, 4, 3, 2, 1])\nwhile True:\n    l1.glyph(2, [0, 0, 0, 0, 0, 0, 0, 0])\n    l1.glyph(3, [1, 1, 1, 1, 1, 1, 1, 1])\n    l1.glyph(2, [2, 2, 2, 2, 2, 2, 2, 2])\n",
+    "same-call-twice-in-block": "from Reduino.Actuators import Led, RGBLed, Buzzer, Servo, DCMotor\nled = Led(5)\nrgb = RGBLed(9, 10, 11)\nbz = Buzzer(8)\nsv = Servo(6)\nm = DCMotor(2, 3, 4)\n"
+                                "led.flash_pattern([1, 0, 1])\nled.flash_pattern([0, 1])\nled.fade_in()\nled.fade_in()\nled.blink(10, 2)\nled.blink(10, 2)\nrgb.fade(1, 2, 3)\nrgb.fade(3, 2, 1)\nrgb.blink(1, 2, 3)\nrgb.blink(1, 2, 3)\n"
+                                "bz.beep()\nbz.beep()\nbz.sweep(100, 200, 50)\nbz.sweep(200, 100, 50)\nbz.melody(\"success\")\nbz.melody(\"alarm\")\nsv.write(10)\nsv.write_us(1500)\nsv.write_us(1000)\nm.ramp(0.5, 100)\nm.ramp(0.0, 100)\nm.run_for(10, 0.5)\nm.run_for(10, 0.5)\n"
+                                "while True:\n    led.flash_pattern([1, 1])\n    led.flash_pattern([0])\n    rgb.fade(5, 5, 5)\n    rgb.fade(0, 0, 0)\n    bz.sweep(100, 300, 40)\n    bz.sweep(300, 100, 40)\n    m.ramp(1.0, 50)\n    m.ramp(0.0, 50)\n",
+    "lcd-calls-twice-in-block": "from Reduino.Displays import LCD\nl1 = LCD(rs=12, en=11, d4=5, d5=4, d6=3, d7=2, backlight_pin=9)\nl1.progress(0, 5, 10)\nl1.progress(1, 7, 10, label=\"v\")\nl1.message(\"a\", \"b\")\nl1.message(\"c\", \"d\")\n"
+                                "l1.animate(\"scroll\", 0, \"hello\")\nl1.animate(\"blink\", 1, \"x\")\nwhile True:\n    l1.progress(0, 1, 10)\n    l1.progress(0, 2, 10)\n    l1.line(0, \"p\")\n    l1.line(0, \"q\")\n",
     "servo-only-in-loop": "from Reduino.Actuators import Servo\nwhile True:\n    s = Servo(9)\n    s.write(10)\n",
 }
 
